@@ -56,13 +56,50 @@ def run(prog, tier):
         chk.decide(bool(zs) and all(sets_error(p) for p in zs), 'energy-guard', f['unit'], n, 'non-positive-energy-is-error', loc,
                    'non-positive energy must report an error and return 0', why='error + 0')
 
+    _single = {}
+
     def single(n):
+        """The function's closed form.  Every identity of the property is stated for all energies and angles, so the function must be ONE
+        analytic expression: a second return whose normal form differs (a series for small E, a shortcut to another function on part of
+        the domain) is a violation, since two different expressions cannot both satisfy the exact identities decided below.  A return
+        that pins an argument to one exact point is accepted when it agrees with the closed form there."""
+        if n in _single:
+            return _single[n]
         f, it, paths = R[n]
         vals = value_paths(it, paths)
-        if len(vals) != 1:
-            chk.inconclusive('shape', n, '%d value paths (expected one closed-form return)' % len(vals))
+        if not vals:
+            chk.inconclusive('shape', n, 'no value path')
+            _single[n] = None
             return None
-        return vals[0]
+        main = max(vals, key=lambda p: (p.ret_node['ln'], p.ret_node.get('col', 0)))
+        for p in vals:
+            if p is main or p.ret.equals(main.ret):
+                continue
+            pinned = {}
+            for prm in f['params']:
+                if prm['T'] != 'double':
+                    continue
+                iv = it.interval_of(Rat.sym(prm['name']), p)
+                if iv.lo is not None and iv.lo == iv.hi and not iv.los and not iv.his:
+                    pinned[prm['name']] = Rat.const(iv.lo)
+            same_there = False
+            if pinned:
+                try:
+                    env = dict(pinned)
+                    for a_, v_ in pinned.items():
+                        if v_.is_zero():
+                            env['cos(%s)' % a_] = Rat.const(1)
+                            env['sin(%s)' % a_] = Rat.const(0)
+                    same_there = subst(main.ret, env).equals(subst(p.ret, env))
+                except Exception:
+                    same_there = False
+            chk.decide(same_there, 'one-closed-form', f['unit'], n, 'return@%d' % p.ret_node['ln'], '%s:%d' % (f['rel'], p.ret_node['ln']),
+                       '%s returns %s here but %s at line %d: the function is no longer one closed form, and the identities of the property '
+                       '(integral, azimuthal average, Thomson limit and bound, Compton-ratio form) hold for at most one of the two expressions' % (
+                           n, p.ret.canon()[:120], main.ret.canon()[:120], main.ret_node['ln']),
+                       why='agrees with the closed form at the single point it is taken for')
+        _single[n] = main
+        return main
 
     # ---- parity / periodicity -------------------------------------------------------------------------
     for n, angles in (('DCS_Thoms', ['theta']), ('DCS_KN', ['theta']), ('ComptonEnergy', ['theta']), ('DCSP_KN', ['theta', 'phi']),
@@ -235,10 +272,17 @@ def kn_total_and_bound(prog, chk):
         it = Interp(prog, f)
         it.keep_macros = True
         vals = [p for p in it.run() if p.ret is not None and not it.is_zero(p.ret, p)]
-        if len(vals) != 1:
-            chk.inconclusive('kn-total-is-integral', name, 'expected one value path, found %d' % len(vals))
+        if not vals:
+            chk.inconclusive('kn-total-is-integral', name, 'no value path')
             return
-        r = vals[0].ret
+        main = max(vals, key=lambda p: (p.ret_node['ln'], p.ret_node.get('col', 0)))
+        for p in vals:
+            if p is not main and not p.ret.equals(main.ret):
+                chk.bad('one-closed-form', S, name, 'return@%d' % p.ret_node['ln'], '%s:%d' % (f['rel'], p.ret_node['ln']),
+                        '%s returns %s here but %s at line %d: the function is no longer one closed form, and the exact identities of the property '
+                        '(total = solid-angle integral, never above Thomson) hold for at most one of the two expressions' % (
+                            name, p.ret.canon()[:120], main.ret.canon()[:120], main.ret_node['ln']))
+        r = main.ret
         # parameter names -> E, theta
         ren = {f['params'][0]['name']: 'E'} if name != 'DCS_Thoms' else {}
         th = f['params'][1]['name'] if name == 'DCS_KN' else (f['params'][0]['name'] if name == 'DCS_Thoms' else None)
